@@ -3,7 +3,7 @@ from .. import domain as D
 from ..absint import const_int
 from ..numeric import Numeric, DATE, DATETIME
 
-LEVEL = 'other'
+LEVEL = 'proof'
 EXPLANATION = ('Decided for all inputs: (D1) Date/DateTime::from_ymd(hms) return exactly the day number date_to_days returned (value identity), and '
                'date_to_days / year_doy_to_days reach Ok only past validate_date / validate_doy, the month match and the day-in-month guard, whose 18 '
                'OutOfRange sites are guard/message consistent (O1/O2); (D3) days_to_date is total on all 2^32 day numbers with month in [1,12], day in '
@@ -12,7 +12,7 @@ EXPLANATION = ('Decided for all inputs: (D1) Date/DateTime::from_ymd(hms) return
                'year_month_to_doy have offsets equal to the prefix sums of their lengths, differ exactly by 29 February, and MONTH_DAYS in days_to_date is '
                'the leap arm rotated to start in March; the cycle constants 1461 / 36524 / 146097 are those implied by the moduli 4 / 100 / 400 of '
                'is_leap_year; MIN_DATE / MAX_DATE are the dates of i32::MIN / i32::MAX and LEAPOCH is the day of 2000-03-01 (constant propagation through the '
-               'kernels). (B) date_to_days IS the proleptic Gregorian day count: in each of the 802 residue classes of the 400-year cycle (year = 400k + j AD, -(400k + j) BC, k symbolic, plus the years -1 and -2) the accepted days of every month are exactly 1..=length (leap by the astronomical year), the day number is base + days-before-month + day - 1 with one base per year, consecutive years are 365/366 days apart in every cycle and across the missing year 0, and 0001-01-01 is day 0 -- so it is strictly increasing by one from each valid date to the next, hence injective (oracle: the calendar definition, not the leap functions of the code). NOT decided: that days_to_date is its inverse on every day.')
+               'kernels). (B) date_to_days IS the proleptic Gregorian day count: in each of the 802 residue classes of the 400-year cycle (year = 400k + j AD, -(400k + j) BC, k symbolic, plus the years -1 and -2) the accepted days of every month are exactly 1..=length (leap by the astronomical year), the day number is base + days-before-month + day - 1 with one base per year, consecutive years are 365/366 days apart in every cycle and across the missing year 0, and 0001-01-01 is day 0 -- so it is strictly increasing by one from each valid date to the next, hence injective (oracle: the calendar definition, not the leap functions of the code). (I) days_to_date is its inverse: for every i32 day number n -- analysed in the 400 March-based years of the cycle x (all later cycles with a symbolic cycle index, the six cycles around the era boundary one by one, all earlier cycles symbolic, and the two partial cycles at the ends of the i32 range), with the day inside the year symbolic -- date_to_days accepts the date days_to_date returns and gives back exactly n (affine identity on every path; the classes cover 2^32 day numbers exactly once). With (B) the two kernels are mutually inverse bijections between the valid dates and the i32 day numbers.')
 META = {
     'technique': 'static analysis: MIR abstract interpretation (totality, ranges, guard/message consistency), value identity at kernel call sites, table agreement by constant propagation',
     'note': 'trusted: rustc MIR, vf/models.py. The numerical bijection (round trip of the two kernels for every day) is not decided by this check.',
@@ -64,8 +64,9 @@ def const_call(N, fn, label, vals, tys):
 
 
 def check(ctx):
-    from ..calendar import check_day_count
+    from ..calendar import check_day_count, check_inverse
     check_day_count(ctx, Numeric)
+    check_inverse(ctx, Numeric)
     N = Numeric(ctx)
     I = N.I
     facts = N.facts
